@@ -227,7 +227,7 @@ struct Exec {
           // bias towards present entries half of the time
           if (op.arg(2) % 2 == 0) { std::vector<int> pres; for (int q = 0; q < NR; ++q) if (cols[(unsigned)t][q]) pres.push_back(q); if (!pres.empty()) k = pres[op.arg(1) % pres.size()]; }
           r.count(cols[(unsigned)t][k] ? "probe.zero_present_entry" : "probe.zero_absent_entry");
-          if constexpr (LAZY_VECTOR && ROWS) { if (cols[(unsigned)t][k] && r.kf("C09-KF2")) { obs.tainted = true; r.skipped(); continue; } }
+          if constexpr (LAZY_VECTOR && ROWS) { if (cols[(unsigned)t][k]) r.count("probe.lazy_vector_zero_entry_with_rows"); }
           m.zero_entry((unsigned)t, (unsigned)k); cols[(unsigned)t][k] = 0; r.mutated = true;
         } else { r.skipped(); continue; }
       } else if (nm == "zero_col") {
